@@ -497,7 +497,7 @@ func ValidateDurations(d *linkedca.Durations) error {
 			return admin.WrapError(admin.ErrorBadRequestType, err, "min duration '%s' is invalid", d.Min)
 		}
 		if minDur.Value() < 0 {
-			return admin.WrapError(admin.ErrorBadRequestType, err, "min duration '%s' cannot be less than 0", d.Min)
+			return admin.NewError(admin.ErrorBadRequestType, "min duration '%s' cannot be less than 0", d.Min)
 		}
 	}
 	if d.Max != "" {
@@ -506,7 +506,7 @@ func ValidateDurations(d *linkedca.Durations) error {
 			return admin.WrapError(admin.ErrorBadRequestType, err, "max duration '%s' is invalid", d.Max)
 		}
 		if maxDur.Value() < 0 {
-			return admin.WrapError(admin.ErrorBadRequestType, err, "max duration '%s' cannot be less than 0", d.Max)
+			return admin.NewError(admin.ErrorBadRequestType, "max duration '%s' cannot be less than 0", d.Max)
 		}
 	}
 	if d.Default != "" {
@@ -515,7 +515,7 @@ func ValidateDurations(d *linkedca.Durations) error {
 			return admin.WrapError(admin.ErrorBadRequestType, err, "default duration '%s' is invalid", d.Default)
 		}
 		if def.Value() < 0 {
-			return admin.WrapError(admin.ErrorBadRequestType, err, "default duration '%s' cannot be less than 0", d.Default)
+			return admin.NewError(admin.ErrorBadRequestType, "default duration '%s' cannot be less than 0", d.Default)
 		}
 	}
 	if d.Min != "" && d.Max != "" && minDur.Value() > maxDur.Value() {
